@@ -210,7 +210,10 @@ fn hand_plan(rng: &mut Rng, baseline: &[TableDef], version: u32) -> Option<(Migr
                     None
                 } else {
                     let k = rng.pick(&t.constraints).clone();
-                    if matches!(k, TableConstraint::PrimaryKey { .. }) && !rng.chance(1, 4) { None } else { Some(MigrationAction::RemoveConstraint { table: t.name.clone(), constraint: k }) }
+                    // A1: a key that a foreign key of some table targets is not removed by hand
+                    let targeted = matches!(k, TableConstraint::PrimaryKey { .. } | TableConstraint::Unique { .. })
+                        && cur.iter().any(|o| o.constraints.iter().any(|f| matches!(f, TableConstraint::ForeignKey { ref_table, ref_columns, .. } if *ref_table == t.name && ref_columns.as_slice() == k.columns())));
+                    if targeted || (matches!(k, TableConstraint::PrimaryKey { .. }) && !rng.chance(1, 4)) { None } else { Some(MigrationAction::RemoveConstraint { table: t.name.clone(), constraint: k }) }
                 }
             }
             10 => Some(MigrationAction::RawSql { sql: "SELECT 1".into() }),
